@@ -383,7 +383,7 @@ def do_check(work, prop, spec, tier, seed, only):
     # evidence/<id>.json describes the repository itself; runs against another copy of the tree
     # (VERIF_REPO: mutants, seeded changes, candidate fixes) or restricted to some units write elsewhere
     evdir = os.path.join(VERIF, "evidence")
-    if os.path.realpath(REPO) != "/repo" or only:
+    if os.path.realpath(REPO) != "/repo" or only or os.environ.get("VERIF_NO_EVIDENCE"):
         evdir = os.path.join(VERIF, ".work", "evidence-other")
     os.makedirs(evdir, exist_ok=True)
     with open(os.path.join(evdir, prop + ".json"), "w") as f:
